@@ -195,15 +195,19 @@ Qed.
      - a parse loop stops (rejected before anything is written): inside when the failing IE is a Create PDR / FAR /
        QER (only appends happened) and the stored slices are well formed (len <= cap) - then the stored rule lists are
        unchanged although the backing arrays are the working copies';
-     - all parse loops complete ([late_ok]): no Update PDR; stored FARs / QERs named by an Update carry the session's
-       SEID and such a QER is application level; created PDR ids are fresh; the FARs (QERs) written by the message
+     - all parse loops complete ([late_ok]): an Update PDR keeps the pdrLookup keys of the rule it replaces; stored
+       FARs / QERs named by an Update carry the session's SEID and such a QER is application level; PDR ids are
+       pairwise distinct when the message writes PDRs (created ids are fresh); the FARs (QERs) written by the message
        have pairwise distinct ids; MarkSessionQer re-run on the session's lists and on the message's QER list changes
-       nothing (no relabel); every Remove PDR / FAR / QER id resolves; creations and removals do not come together.
+       nothing (no relabel - true of a session already marked at establishment); every Remove PDR / FAR / QER id
+       resolves; creations and removals do not come together.
    Inside: any number of Update FARs (Outer Header Creation, end-marker flag, buffering, unknown ids skipped), CP
-   F-SEID change, Remove PDR/FAR/QER of existing rules, Create PDR/FAR/QER, Update QER of application-level QERs.
+   F-SEID change, Remove PDR/FAR/QER of existing rules, Create PDR/FAR/QER, Update QER of application-level QERs,
+   Update PDR that changes precedence / FAR id / QER list / value fields but not the match key - and their mixtures.
    Outside (the three refuting shapes above and what the proof does not reach): a rejected modification whose failing
-   IE comes after an in-place update or whose Remove id is unknown (F12), Update PDR (F13), relabelling (F13b), the same
-   FAR / QER id written twice in one message, Create together with Remove. *)
+   IE comes after an in-place update or whose Remove id is unknown (F12), key-changing Update PDR (F13), relabelling
+   and Update of the session-level QER (F13b), the same FAR / QER id written twice in one message, Create together
+   with Remove. *)
 From UPF Require Import Proofs.ModImage Proofs.ModWorld.
 Theorem C03_image_invariant_mod_partial : forall burst es w w',
   (forall x, In x (states burst w es) -> envelope burst x /\ alloc_backed x) ->
@@ -222,7 +226,7 @@ Print Assumptions C03_mod_guard_subsumes.
 Theorem C03_mod_image_step : forall burst a c seid cpf cp cf cq up uf uq rp rf rq s0 w6 a' c' o,
   find_session seid (c_sessions c) = Some s0 ->
   mod_loops a c s0 seid cp cf cq up uf uq = (w6, 0%nat) ->
-  late_ok a seid s0 w6 cp cf cq up uf uq rp rf rq = true ->
+  late_ok a c seid s0 w6 cp cf cq up uf uq rp rf rq = true ->
   handle_mod burst a c seid cpf cp cf cq up uf uq rp rf rq = Done (a', c', o) ->
   exists s', c_sessions c' = replace_session s' (c_sessions c) /\ s_lseid s' = s_lseid s0 /\
     a_tables a' = apply_cmds (o_cmds o) (a_tables a) /\ o_reply o = Some (RMod (new_rseid cpf s0) CAUSE_OK) /\
@@ -246,31 +250,37 @@ Theorem C03_mod_parse_reject_step : forall burst a c seid cpf cp cf cq up uf uq 
 Proof. exact mod_early_image. Qed.
 Print Assumptions C03_mod_parse_reject_step.
 
-(* non-vacuity: association setup; establishment of a session with an uplink and a downlink PDR, two FARs, one QER;
-   a handover-style modification with three Update FARs (FAR 2: new tunnel with the end-marker flag, FAR 99: unknown,
-   skipped, FAR 1); a modification creating PDR 3 / FAR 3; a CP F-SEID change; a modification removing PDR 3 / FAR 3;
-   a modification rejected in the parse phase (unreadable Create FAR); the deletion.  Every hypothesis of the theorem
-   holds of this history (every state inside the envelope, every event inside the guard), all modifications but the
-   seventh event are accepted, the end marker goes to the OLD tunnel (100 -> 8, TEID 6), and after the sixth event
-   the FAR table holds FAR 2 with the new tunnel (9, TEID 7) *)
+(* non-vacuity: association setup; establishment of a session with an uplink and a downlink PDR, two FARs, two QERs
+   (QER 2 becomes the session-level one); a handover-style modification with three Update FARs (FAR 2: new tunnel with
+   the end-marker flag, FAR 99: unknown, skipped, FAR 1); a modification creating PDR 3 / FAR 3; a CP F-SEID change; a
+   modification with an Update PDR (new precedence, same key) and an Update QER (application QER 1); a modification
+   removing PDR 3 / FAR 3; a modification rejected in the parse phase (unreadable Create FAR); the deletion.  Every
+   hypothesis of the theorem holds of this history (every state inside the envelope, every event inside the guard), all
+   modifications but the eighth event are accepted, the end marker goes to the OLD tunnel (100 -> 8, TEID 6), and
+   after the seventh event the FAR table holds FAR 2 with the new tunnel (9, TEID 7), PDR 2 has the new precedence
+   and the application QER entries the new rate *)
 Example C03_image_invariant_mod_nonvacuous :
   let burst := fun _ _ _ : N => 0 in
   let w0 := World (Agent (Cfg 100 200 true) None (Gen 0 []) 0 no_tables) [] in
-  let pdr1 := PdrIE (IOk 1) (IOk 10) (IOk [PSrc (IOk 0); PFteid (IOk (false, 11, Some 100))]) true (IOk 1) true [1] in
-  let pdr2 := PdrIE (IOk 2) (IOk 10) (IOk [PSrc (IOk 1); PUeip (IOk (2, Some 50))]) false (IOk 2) true [1] in
+  let pdr1 := PdrIE (IOk 1) (IOk 10) (IOk [PSrc (IOk 0); PFteid (IOk (false, 11, Some 100))]) true (IOk 1) true [1; 2] in
+  let pdr2 := PdrIE (IOk 2) (IOk 10) (IOk [PSrc (IOk 1); PUeip (IOk (2, Some 50))]) false (IOk 2) true [1; 2] in
   let far1 := FarIE (IOk 1) (IOk 2) (IOk [FDst (IOk 1)]) IErr in
   let far2 := FarIE (IOk 2) (IOk 2) (IOk [FDst (IOk 0); FOhc (IOk (6, Some 8))]) IErr in
   let qer1 := QerIE (IOk 1) 9 0 0 1000 1000 0 0 in
+  let qer2 := QerIE (IOk 2) 9 0 0 5000 5000 0 0 in
   let ufar2 := FarIE (IOk 2) (IOk 2) IErr (IOk [FDst (IOk 0); FOhc (IOk (7, Some 9)); FSm (IOk 2)]) in
   let ufar1 := FarIE (IOk 1) (IOk 2) IErr (IOk [FDst (IOk 1)]) in
   let ufar99 := FarIE (IOk 99) (IOk 2) IErr (IOk [FDst (IOk 1)]) in
-  let pdr3 := PdrIE (IOk 3) (IOk 20) (IOk [PSrc (IOk 1); PUeip (IOk (2, Some 51))]) false (IOk 3) true [1] in
+  let pdr3 := PdrIE (IOk 3) (IOk 20) (IOk [PSrc (IOk 1); PUeip (IOk (2, Some 51))]) false (IOk 3) true [1; 2] in
   let far3 := FarIE (IOk 3) (IOk 2) (IOk [FDst (IOk 0); FOhc (IOk (16, Some 8))]) IErr in
+  let upd2 := PdrIE (IOk 2) (IOk 30) (IOk [PSrc (IOk 1); PUeip (IOk (2, Some 50))]) false (IOk 2) true [1; 2] in
+  let uqer1 := QerIE (IOk 1) 9 0 0 2000 2000 0 0 in
   let es := [WMsg 0 true (MSetup (Some (IOk 7)) (Some (IOk 1))) [];
-             WMsg 0 true (MEst (Some (IOk 7)) (Some (IOk (77, Some 3))) [pdr1; pdr2] [far1; far2] [qer1]) [5];
+             WMsg 0 true (MEst (Some (IOk 7)) (Some (IOk (77, Some 3))) [pdr1; pdr2] [far1; far2] [qer1; qer2]) [5];
              WMsg 0 true (MMod 5 None [] [] [] [] [ufar2; ufar99; ufar1] [] [] [] []) [];
              WMsg 0 true (MMod 5 None [pdr3] [far3] [] [] [] [] [] [] []) [];
              WMsg 0 true (MMod 5 (Some (IOk (78, Some 3))) [] [] [] [] [] [] [] [] []) [];
+             WMsg 0 true (MMod 5 None [] [] [] [upd2] [] [uqer1] [] [] []) [];
              WMsg 0 true (MMod 5 None [] [] [] [] [] [] [IOk 3] [IOk 3] []) [];
              WMsg 0 true (MMod 5 None [] [FarIE IErr IErr IErr IErr] [] [] [] [] [] [] []) [];
              WMsg 0 true (MDel 5) []] in
@@ -279,19 +289,23 @@ Example C03_image_invariant_mod_nonvacuous :
   wtrace burst w0 es =
     [(Some (RSetup CAUSE_OK), []); (Some (REst 77 CAUSE_OK true (Some 5) []), []);
      (Some (RMod 77 CAUSE_OK), [Marker 100 8 6]); (Some (RMod 77 CAUSE_OK), []); (Some (RMod 78 CAUSE_OK), []);
-     (Some (RMod 78 CAUSE_OK), []); (Some (RMod 78 CAUSE_REJ), []); (Some (RDel 78 CAUSE_OK), [])] /\
-  (exists w6, wrun burst w0 (firstn 6 es) = Done w6 /\ image_ok burst w6 /\
-     t_far (a_tables (w_agent w6)) = [([1; 5], [0; 1; 0; 200; 0; 0; 0]); ([2; 5], [1; 0; 1; 100; 9; 7; 2152])] /\
-     length (t_pdr (a_tables (w_agent w6))) = 2%nat) /\
-  (exists w8, wrun burst w0 es = Done w8 /\ image_ok burst w8 /\ a_tables (w_agent w8) = no_tables).
+     (Some (RMod 78 CAUSE_OK), []); (Some (RMod 78 CAUSE_OK), []); (Some (RMod 78 CAUSE_REJ), []); (Some (RDel 78 CAUSE_OK), [])] /\
+  (exists w7, wrun burst w0 (firstn 7 es) = Done w7 /\ image_ok burst w7 /\
+     a_tables (w_agent w7) =
+       Tables [([2; 0; 0; 0; 50; 0; 0; 0; 255; 0; 0; 0; 4294967295; 0; 0; 0], [0; 4294967265; 2; 5; 0; 1; 2]);
+               ([1; 100; 11; 0; 0; 0; 0; 0; 255; 4294967295; 4294967295; 0; 0; 0; 0; 0], [1; 4294967285; 1; 5; 0; 1; 1])]
+              [([1; 5], [0; 1; 0; 200; 0; 0; 0]); ([2; 5], [1; 0; 1; 100; 9; 7; 2152])]
+              [([2; 1; 5], [0; 1; 250000; 0; 0; 0; 9]); ([1; 1; 5], [0; 1; 250000; 0; 0; 0; 9])]
+              [([2; 5], [0; 1; 625000; 0; 0; 0]); ([1; 5], [0; 1; 625000; 0; 0; 0])]) /\
+  (exists w9, wrun burst w0 es = Done w9 /\ image_ok burst w9 /\ a_tables (w_agent w9) = no_tables).
 Proof.
-  intros burst w0 pdr1 pdr2 far1 far2 qer1 ufar2 ufar1 ufar99 pdr3 far3 es.
+  intros burst w0 pdr1 pdr2 far1 far2 qer1 qer2 ufar2 ufar1 ufar99 pdr3 far3 upd2 uqer1 es.
   assert (forall x, In x (states burst w0 es) -> envelope burst x /\ alloc_backed x) as Henv
     by (apply states_ok_b; vm_compute; reflexivity).
   split; [exact Henv|]. split; [vm_compute; reflexivity|]. split; [vm_compute; reflexivity|]. split; [apply image_empty|].
   split; [vm_compute; reflexivity|]. split.
-  - eexists. split; [vm_compute; reflexivity|]. split; [|split; vm_compute; reflexivity].
-    apply (C03_image_invariant_mod_partial burst (firstn 6 es) w0); [| |apply image_empty|vm_compute; reflexivity].
+  - eexists. split; [vm_compute; reflexivity|]. split; [|vm_compute; reflexivity].
+    apply (C03_image_invariant_mod_partial burst (firstn 7 es) w0); [| |apply image_empty|vm_compute; reflexivity].
     + apply states_ok_b. vm_compute. reflexivity.
     + vm_compute. reflexivity.
   - eexists. split; [vm_compute; reflexivity|]. split; [|vm_compute; reflexivity].
